@@ -28,7 +28,7 @@ func histories(depth int, opts []Call, f func([]Call)) {
 
 // Exhaustive enumerates histories on the tiny universe for every holder (only the maximal
 // histories are run: their prefixes are part of them), transcripts large enough for the
-// runtime to leave spare capacity behind SetExons, chains around the documented depth limit
+// runtime to leave spare capacity behind SetExons, genes (SetFeatures), chains around the documented depth limit
 // and the conversions around zero.
 func Exhaustive(out *vt.W, big bool) int {
 	n := 0
@@ -94,6 +94,8 @@ func Exhaustive(out *vt.W, big bool) int {
 			}
 		}
 	}
+	// genes: histories of accepted and rejected SetFeatures calls
+	n += geneExhaustive(out, big)
 	// nesting chains around the documented limit of 1000 links
 	for _, d := range []int{1, 2, 998, 999, 1000, 1001, 1002, 1003} {
 		for pat := 0; pat < 8; pat++ {
@@ -200,7 +202,7 @@ func randChain(rng *rand.Rand, d int, top int) []X {
 // Random runs n random gene models: a transcript of length up to 10^4 (big: many exons) under a
 // random nesting chain, a history of accepted and rejected updates on it and on a bare Exons value
 // with random spare capacity, the mapping functions on the exon-transcript-gene-chromosome chain
-// and on random chains, and the conversions.
+// and on random chains, and the conversions; then n genes with histories of SetFeatures calls.
 func Random(out *vt.W, rng *rand.Rand, n int, big bool) {
 	for c := 0; c < n; c++ {
 		tlen := 1 + rng.Intn(10000)
@@ -309,5 +311,9 @@ func Random(out *vt.W, rng *rand.Rand, n int, big bool) {
 		mapping(out, rc, rng.Intn(3), rng.Intn(2001)-1000, allRefs(d))
 		conv(out, rng.Intn(2000000001)-1000000000)
 		conv(out, rng.Intn(7)-3)
+	}
+	// n genes, each with a history of accepted and rejected SetFeatures calls
+	for c := 0; c < n; c++ {
+		geneRandom(out, rng, big)
 	}
 }
